@@ -54,7 +54,7 @@ func emitExtract(o *hx.Out, s, tag string) {
 
 // famPure drives the exported pure functions of C34 and C42.
 func famPure(r *hx.Rng, o *hx.Out) {
-	n := hx.N(150, 5000)
+	n := hx.N(150, 1500)
 
 	// identifier recognisers
 	for i := 0; i < n; i++ {
